@@ -214,10 +214,30 @@ def _stack_table(model, fn, tokname, stack_pred0, r):
     def _ev(e, env):
         if isinstance(e, ast.Attribute) and unparse(e.value) == tokname and e.attr in ('back', 'hard'):
             return env[e.attr]
-        if isinstance(e, ast.Compare) and isinstance(e.left, ast.Call) \
-                and getattr(e.left.func, 'id', '') == 'len' and stack_pred(e.left.args[0]) \
-                and isinstance(e.ops[0], ast.Gt) and T.is_const(e.comparators[0], 1):
-            return env['deep']
+        # the stack holds one entry (deep False) or two (deep True): it is never empty, which is
+        # what the guard of the pop has to maintain
+        depth = 2 if env['deep'] else 1
+        if stack_pred(e):
+            return depth > 0
+        if isinstance(e, ast.Compare) and len(e.ops) == 1 and isinstance(e.comparators[0], ast.Constant) \
+                and isinstance(e.comparators[0].value, int) and isinstance(e.left, ast.Call) \
+                and getattr(e.left.func, 'id', '') == 'len' and e.left.args and stack_pred(e.left.args[0]):
+            c = e.comparators[0].value
+            op = e.ops[0]
+            if isinstance(op, ast.Gt):
+                return depth > c
+            if isinstance(op, ast.GtE):
+                return depth >= c
+            if isinstance(op, ast.Lt):
+                return depth < c
+            if isinstance(op, ast.LtE):
+                return depth <= c
+            if isinstance(op, ast.Eq):
+                return depth == c
+            if isinstance(op, ast.NotEq):
+                return depth != c
+        if isinstance(e, ast.Call) and getattr(e.func, 'id', '') == 'len' and e.args and stack_pred(e.args[0]):
+            return depth > 0
         if isinstance(e, ast.UnaryOp) and isinstance(e.op, ast.Not):
             return not _ev(e.operand, env)
         if isinstance(e, ast.BoolOp):
@@ -583,9 +603,15 @@ def ix8(model):
                 r.ok(n, 'guarded by isdecimal()', nontrivial=True)
                 continue
             if isinstance(a, ast.Subscript) and guards.has_fact(
-                    n, lambda e, t: not t and isinstance(e, ast.UnaryOp) or
-                    (t and isinstance(e, ast.Call) and T.call_name(e) == 'isdecimal')):
+                    n, lambda e, t: t and isinstance(e, ast.Call) and T.call_name(e) == 'isdecimal'):
                 r.ok(n, 'single character tested with isdecimal()', nontrivial=True)
+                continue
+            weak = [e for e, t in guards.facts(n) if t and isinstance(e, ast.Call)
+                    and T.call_name(e) in ('isdigit', 'isnumeric', 'isalnum')]
+            if weak:
+                r.fail(n, '%s() is guarded by %s(), which also accepts characters that int() rejects '
+                       '(superscript and circled digits): ValueError' % (n.func.id, T.call_name(weak[0])),
+                       witness='#\u00b2 in the text')
                 continue
             grp = [x for x in ast.walk(a) if isinstance(x, ast.Call) and T.call_name(x) == 'group'
                    and x.args and isinstance(x.args[0], ast.Constant)]
